@@ -33,6 +33,10 @@ func sqlWorkload(c *rig.Ctx, r *repo, rnd *rand.Rand, variant int) map[string]in
 		r.must(fmt.Sprintf("insert into t values (%d,%d,'row%d','%s','{\"n\":%d,\"s\":\"%s\"}')", i, 1+i%3, i, big(), i, big()))
 		r.must(fmt.Sprintf("insert into k values (%d,'k%d','%s')", i%5, i, bigText(rnd, 20)))
 	}
+	// rows where only one of several address-capable columns is out of band
+	r.must("create table sp (id int primary key, a text, b blob, j json)",
+		fmt.Sprintf("insert into sp values (1,'%s','short',null)", bigText(rnd, 6000)),
+		"insert into sp values (2,'tiny',null,'{\"a\":1}')")
 	r.must("insert into seq (v) values ('x'),('y'),('z')", "call dolt_commit('-Am','base')", "call dolt_tag('v0')")
 	for i := 0; i < 3; i++ {
 		r.must(fmt.Sprintf("update t set c2 = concat('m%d-', pk) where pk = %d", i, i), fmt.Sprintf("call dolt_commit('-am','main %d')", i))
